@@ -60,6 +60,16 @@ def dep_invalidation_propagates(ctx):
                     od = bool_atom_desc(a, e.label[2])
                     if not all(d[0] == "call" and d[1].endswith("PartialEq>::eq") and any(msg_field_atoms("Invalidated", "kind")(x) for x in d[2]) for d in od):
                         only_kind = False
+                    # ... and the case that must get through is the invalidation of a *Build* dependency (its outputs are about to change): the test may
+                    # only single out `kind == Build`
+                    for d in od:
+                        if d[0] == "call" and d[1].endswith("PartialEq>::eq"):
+                            others = set()
+                            for x in d[2]:
+                                if not msg_field_atoms("Invalidated", "kind")(x):
+                                    others |= atom_aggs(x, "ExecutionKind")
+                            if others != {"Build"} or e.label[1] is not True:
+                                only_kind = False
                 if only_kind:
                     ok = True
             ctx.check(ok, f"{lab}/Invalidated", [site(a, c[0]) for c in good] or [a.loc(min(Rinv))],
@@ -176,7 +186,7 @@ def missing_path_tolerated(ctx):
             targets = set(ret_errs) | set(tries)
             if not targets:
                 continue
-            for p in enumerate_paths(b, start=ee.dst, stop_at=targets):
+            for p in enumerate_paths(b, start=ee.dst, stop_at=targets, within=Rerr | {ee.dst}):
                 if not p or p[-1].dst not in targets and ee.dst not in targets:
                     continue
                 if not feasible_path(b, p, start=ee.dst):
@@ -219,6 +229,46 @@ def watcher_ctor_fn(ctx):
     out = [r.V(b) for b in r.minimal(cands)]
     ctx.need(out, "watcher constructor (-> Result<Option<TargetWatcher>>, builds a TargetWatcher)")
     return out
+
+
+@rule("C06.RESOURCE-ACCESSORS", ["C06", "C13", "C12"], """the accessors of a target's declared resources return them for every kind of target that declares them: `input` of builds and services (what is
+      watched and compared), `output` of builds (what is inherited and cleaned) - none of those kinds is answered `None`""", "K4", floor=2)
+def resource_accessors(ctx):
+    f = ctx.f
+    def payload_fields(v):
+        out = set()
+        for fd in v["fields"]:
+            a = f.adts.get(fd["ty"])
+            if a and not a["enum"]:
+                out |= {(x["name"], x["ty"]) for x in a["variants"][0]["fields"]}
+        return out
+    n = 0
+    for b in f.user_bodies():
+        if b.kind not in ("Fn", "AssocFn") or b.argc != 1 or not re.search(r"^&[\w:]*Target$", b.locals[1]["ty"]) or not re.search(r"^std::option::Option<&[\w:]*Resources>$", b.ret):
+            continue
+        # which field this accessor is about: the field(s) its Some(..) values read
+        somes = list(b.aggregates("Option", "Some"))
+        fields_read = set()
+        for bb, st in somes:
+            for o in st["rv"]["ops"]:
+                if o["k"] != "const":
+                    fields_read |= {a[2] for a in b.prov.operand_atoms(o, interproc=False) if a[0] == "field" and f.adts.get(a[1]) and any(x["ty"].endswith("Resources") for x in f.adts[a[1]]["variants"][0]["fields"] if x["name"] == a[2])}
+        if len(fields_read) != 1:
+            continue
+        fld = next(iter(fields_read))
+        T = f.adts.get(b.locals[1]["ty"].lstrip("&").strip())
+        if not T or not T["enum"]:
+            continue
+        n += 1
+        for v in T["variants"]:
+            if not any(nm == fld and ty.endswith("Resources") for nm, ty in payload_fields(v)):
+                continue
+            R = variant_region(b, "Target", v["name"])
+            ok = any(bb in R for bb, st in somes)
+            ctx.check(ok, f"{short(b.name)}/{v['name']}", [site(b, bb) for bb, st in somes if bb in R] or [b.loc()],
+                      f"`{short(b.name)}` answers None for a {v['name']} target although it declares `{fld}`: its {fld} would be neither watched, compared nor cleaned",
+                      props=["C06", "C13"] if fld == "input" else ["C13", "C12"])
+    ctx.need(n >= 2, "accessors of a target's declared input / output")
 
 
 @rule("C06.WATCHER-RETAINED", ["C06", "C13"], """in watch mode the launcher builds the watcher from the target's whole input and the actor's own invalidation sender, and keeps
